@@ -928,8 +928,10 @@ fn c11_grammar<V: VirtualFileSystem>(v: &V, backend: &str, root: &str, ctx: &Ctx
         for m in [0o1u32, 0o7, 0o70, 0o700, 0o644, 0o755, 0o777, 0o400, 0o222, 0o111, 0o511] {
             for (kind, path, _, _) in kinds.iter().take(2) {
                 for sel in ["all", "dirs", "files"] {
+                  // (start modes without any read / execute bit included: the pre-traversal step that grants
+                  // permissions early must leave an entry alone that the selector does not name)
+                  for start in [0o640u32, 0o200, 0o222, 0o020, 0o100, 0o777] {
                     rep.eval();
-                    let start = 0o640;
                     set_start(v, path, start);
                     let m0 = v.mode(path).unwrap_or(0);
                     let r = v.chmod_b(path).and_then(|c| {
@@ -950,6 +952,7 @@ fn c11_grammar<V: VirtualFileSystem>(v: &V, backend: &str, root: &str, ctx: &Ctx
                             J::obj(vec![("mode", J::s(format!("{:o}", m))), ("start", J::s(format!("{:o}", m0))), ("got", J::s(format!("{:o}", m1)))]),
                         );
                     }
+                  }
                 }
             }
         }
